@@ -452,7 +452,11 @@ func runC09(c *eng.Ctx) {
 		goc := c.One(g, invokeOn(".series", "GetOrCreateValue"), "series.GetOrCreateValue")
 		for _, x := range []eng.Site{add, put} {
 			a := eng.CallArgs(x.Instr.(*ssa.Call))
-			c.Check(eng.DerivesFromCall(eng.UpParam(a[1]), goc.Instr.(ssa.Value), 0) && p.Desc(a[0]) != "", "records-created-id:"+shortInstr(p, x.Instr), x.Instr, g,
+			fromGoc := eng.DerivesFromCall(eng.UpParam(a[1]), goc.Instr.(ssa.Value), 0) || eng.DependsOn(a[1], func(y ssa.Value) bool {
+				e, ok := y.(*ssa.Extract)
+				return ok && e.Tuple == goc.Instr.(ssa.Value) && e.Index == 0
+			})
+			c.Check(fromGoc && p.Desc(a[0]) != "", "records-created-id:"+shortInstr(p, x.Instr), x.Instr, g,
 				"the ID recorded in the cache / posting list is the one the dictionary just created", "records "+p.Desc(a[1]))
 		}
 		facts := p.MustFacts(g)
